@@ -2185,6 +2185,10 @@ extern int32 matrixCreateSessionTicket(ssl_t *ssl, unsigned char *out,
 extern int32 matrixUnlockSessionTicket(ssl_t *ssl, unsigned char *in,
                                        int32 inLen);
 extern int32 matrixSessionTicketLen(void);
+extern psBool_t matrixHaveSessionTicketKeys(sslKeys_t *keys);
+extern int32 matrixCopySessionTicketKey(sslKeys_t *keys,
+                                        const unsigned char *name,
+                                        psSessionTicketKeys_t *out);
 #  endif
 # endif /* USE_SERVER_SIDE_SSL */
 
